@@ -50,6 +50,17 @@ func (m *Metrics) Write(w io.Writer) error {
 		return err
 	}
 
+	if m.Version != "" {
+		if err := write("Version %s", m.Version); err != nil {
+			return err
+		}
+	}
+	if m.Notice != "" {
+		if err := write("Notice %s", m.Notice); err != nil {
+			return err
+		}
+	}
+
 	bbox := m.FontBBoxPDF()
 	llx := int(math.Floor(bbox.LLx))
 	lly := int(math.Floor(bbox.LLy))
